@@ -252,6 +252,14 @@ def respell_deb(s, rng):
         return s + rng.choice(["-0", "-", "-00"])
     if r < 0.4 and s[-1:].isalpha():
         return s + "0"
+    if r < 0.47:
+        # a zero written where a part ends in a non-digit: the empty digit run there counts as 0
+        # (2.3+dfsg-2ubuntu1 / 2.3+dfsg0-2ubuntu1, 1.0~rc-1 / 1.0~rc00-1)
+        import re
+        spots = [m.end() for m in re.finditer(r"[^0-9:](?=[-]|$)", s)]
+        if spots:
+            i = rng.choice(spots)
+            return s[:i] + rng.choice(["0", "00"]) + s[i:]
     if r < 0.45 and s.endswith("-0"):
         return s[:-1]
     if r < 0.5:
